@@ -60,6 +60,9 @@ func (t *byteTracer) trace(v ssa.Value, depth int, seen map[ssa.Value]bool) []or
 	p := t.c.P
 	switch x := v.(type) {
 	case *ssa.Parameter:
+		if a := p.Actual(x); a != ssa.Value(x) {
+			return t.trace(a, depth+1, seen)
+		}
 		return []origin{{"param", x.Name(), x}}
 	case *ssa.Const:
 		return []origin{{"const", "", x}}
